@@ -226,14 +226,16 @@ class H:
                 xv = x.val if isinstance(x, Term) else float(x)
                 yv = y.val if isinstance(y, Term) else float(y)
                 sc = scale.val if isinstance(scale, Term) else float(scale)
-                if not (abs(xv - yv) <= tol * max(1.0, sc)):
+                # floats: relative to the stated scale or to the magnitude of the compared values themselves (rounding of a
+                # result of size 1e8 is not a disagreement of 1e-9)
+                if not (abs(xv - yv) <= tol * max(1.0, sc, abs(xv), abs(yv))):
                     self._fail(lab, f'{xv!r} != {yv!r} (tol {tol:g}, scale {sc:g})')
 
     def le(self, label, a, b):
         at, bt = (Term.lift(a), Term.lift(b)) if self.mode != 'concrete' else (a, b)
         self.true(label, at <= bt)
 
-    def same(self, label, a, b):
+    def same(self, label, a, b, bitwise=False):
         """structural identity of two results (same DAG => bitwise equal floats).  Falls back to
         R-equality obligations where the DAGs differ."""
         if self.mode != 'sym':
@@ -242,8 +244,11 @@ class H:
             B = tov(np.asarray(b, dtype=object)) if np.size(b) else np.asarray(b, dtype=float)
             self.observed.append((label, A))
             self.checked += 1
-            if self.mode == 'concolic':
-                ok = A.shape == B.shape and bool(np.all(np.abs(A - B) <= 1e-9 * np.maximum(1.0, np.abs(A))))
+            if self.mode == 'concolic' or not bitwise:
+                # two routes to the same value (deg vs rad input, class vs base function) differ by rounding in floats;
+                # only "the same call twice" (bitwise=True, C17) must agree to the last bit
+                with np.errstate(invalid='ignore'):
+                    ok = A.shape == B.shape and bool(np.all((np.abs(A - B) <= 1e-9 * np.maximum(1.0, np.abs(A))) | (np.isnan(A) & np.isnan(B))))
             else:
                 ok = A.shape == B.shape and np.array_equal(A, B, equal_nan=True)     # NaN twice is the same result
             if not ok:
